@@ -1,7 +1,7 @@
 from pulser.backend import EmulatorBackend, Results, BitStrings
 from emu_sv.sv_config import SVConfig
 from emu_sv.sv_backend_impl import SVBackendImpl
-from emu_base import PulserData, SequenceData
+from emu_base import HamiltonianType, PulserData, SequenceData
 
 
 class SVBackend(EmulatorBackend):
@@ -37,5 +37,14 @@ class SVBackend(EmulatorBackend):
 
     @staticmethod
     def _run_from_sequence_data(sequence_data: SequenceData, config: SVConfig) -> Results:
+        if (
+            sequence_data.hamiltonian_type != HamiltonianType.Rydberg
+            or sequence_data.dim != 2
+        ):
+            raise NotImplementedError(
+                "emu-sv only emulates two-level atoms in the ground-rydberg basis "
+                f"(got {sequence_data.hamiltonian_type.name} interactions with "
+                f"eigenstates {list(sequence_data.eigenstates)})."
+            )
         impl = SVBackendImpl(config, sequence_data)
         return impl._run()
